@@ -182,6 +182,13 @@ func (f *fakeClient) OpenStream(vb uint16, coll map[uint32]string, off *models.O
 	return err
 }
 
+// openCountOf: number of OpenStream calls (successful or not) for a vBucket so far.
+func (f *fakeClient) openCountOf(vb uint16) int {
+	f.mu.Lock()
+	defer f.mu.Unlock()
+	return f.openCount[vb]
+}
+
 func (f *fakeClient) CloseStream(vb uint16) error {
 	n := f.inflight.Add(1)
 	for {
